@@ -103,9 +103,27 @@ Definition pp_agrees (r : row) (pp : Z) : bool :=
     (if pp =? 0 then (r_pp r =? 0) || (r_pp r =? 1) else if pp =? 1 then r_pp r =? 2 else if pp =? 2 then r_pp r =? 3
      else if pp =? 3 then (r_pp r =? 4) || (r_pp r =? 5) else false)
   else r_pp r =? pp.
-Definition opcode_row_agrees (w : Z) (r : row) : bool :=
+Definition w_wbit (w : Z) : bool := (w / 134217728) mod 2 =? 1.
+Definition w_ll (w : Z) : Z := (w / 536870912) mod 4.
+Definition f_vex (fl : Z) : bool := (fl / 4194304) mod 2 =? 1.
+Definition f_evex (fl : Z) : bool := (fl / 8388608) mod 2 =? 1.
+
+(* encoding kind, W and LL of an opcode word against a row: the instruction must have the row's kind of encoding; a W / LL that is
+   FIXED in the word (non-zero: W1, L.256, L.512) must be the row's W / LL (or the row ignores it); zero means "by operands" *)
+Definition kind_agrees (fl w : Z) (r : row) : bool :=
+  if r_kind r =? 0 then negb (f_vex fl) && negb (f_evex fl) && (w_mm w <? 8)
+  else if r_kind r =? 1 then f_vex fl && (w_mm w <? 8)
+  else if r_kind r =? 2 then 8 <=? w_mm w
+  else f_evex fl.
+Definition wl_agrees (w : Z) (r : row) : bool :=
+  (if r_kind r =? 3 then negb (w_evexw w) || (1 <=? r_w r) else negb (w_wbit w) || (1 <=? r_w r) || (r_kind r =? 0)) &&
+  ((w_ll w =? 0) || (r_kind r =? 0) || (r_l r =? 3) || (r_l r =? w_ll w)).
+
+(* `relax66`: classes whose handler adds the operand-size prefix 66 itself (far call / jmp by the size of the pointer, pextrb/w/d/q
+   and extractps to a general register): a word without mandatory prefix also stands for the legacy rows with prefix 66 *)
+Definition opcode_row_agrees_g (relax66 : bool) (w : Z) (r : row) : bool :=
   let mm := w_mm w in
-  pp_agrees r (w_pp w) &&
+  (pp_agrees r (w_pp w) || (relax66 && (w_pp w =? 0) && (r_kind r =? 0) && (r_pp r =? 2))) &&
   (if mm =? 4 then
      (* 0F 01 xx: the database has opcode 01 in map 0F and xx as a fixed ModRM byte *)
      (r_kind r =? 0) && (r_map r =? 1) && (r_opc r =? 1) && (w_opc w =? 192 + 8 * r_digit r + r_rmfix r)
@@ -113,10 +131,72 @@ Definition opcode_row_agrees (w : Z) (r : row) : bool :=
      (* 3DNow!: 0F 0F /r xx, the stored opcode byte is the suffix xx *)
      (r_kind r =? 0) && (r_map r =? 1) && (r_opc r =? 15) && (mm =? 1) && (w_opc w =? r_suffix r)
    else (r_map r =? mm) && (r_opc r =? w_opc w) && ((r_digit r <? 0) || (0 <=? r_rmfix r) || (r_digit r =? w_modo w))).
+Definition opcode_row_agrees := opcode_row_agrees_g false.
+(* the full agreement of one word with one row: opcode, encoding kind, W and LL *)
+Definition word_row_agrees_g (relax66 : bool) (fl w : Z) (r : row) : bool :=
+  opcode_row_agrees_g relax66 w r && kind_agrees fl (if w_mm w =? 4 then 256 else w) r && wl_agrees w r.
+Definition word_row_agrees := word_row_agrees_g false.
 (* the main opcode word, or the alternative one (store / immediate forms), is the opcode of some database form of the mnemonic *)
 Definition opcode_inst_agrees (rows : list row) (e : inst_entry) : bool :=
   existsb (fun r => (r_name r =? ie_name e) &&
-                    (opcode_row_agrees (ie_main e) r || ((0 <? ie_alt e) && opcode_row_agrees (ie_alt e) r))) rows.
+                    (word_row_agrees (ie_flags e) (ie_main e) r || ((0 <? ie_alt e) && word_row_agrees (ie_flags e) (ie_alt e) r))) rows.
+(* the converse: EVERY database form of the mnemonic is encoded by the main or the alternative opcode word *)
+Definition opcode_inst_covers (rows : list row) (e : inst_entry) : bool :=
+  forallb (fun r => negb (r_name r =? ie_name e) ||
+                    word_row_agrees (ie_flags e) (ie_main e) r || ((0 <? ie_alt e) && word_row_agrees (ie_flags e) (ie_alt e) r)) rows.
+
+(* classes with the handler-added 66 prefix: forward and converse at once *)
+Definition size66_inst_agrees (rows : list row) (e : inst_entry) : bool :=
+  let ok r := word_row_agrees_g true (ie_flags e) (ie_main e) r || ((0 <? ie_alt e) && word_row_agrees_g true (ie_flags e) (ie_alt e) r) in
+  existsb (fun r => (r_name r =? ie_name e) && ok r) rows && forallb (fun r => negb (r_name r =? ie_name e) || ok r) rows.
+
+(* x87 (FpuOp class): the word holds both opcode bytes: escape byte in bits 10..17, the fixed ModRM byte in bits 0..7 *)
+Definition fpu_op_agrees (rows : list row) (e : inst_entry) : bool :=
+  let w := ie_main e in
+  existsb (fun r => (r_name r =? ie_name e) && (r_kind r =? 0) && (r_map r =? 0) && (r_opc r =? (w / 1024) mod 256) &&
+                    (0 <=? r_digit r) && (0 <=? r_rmfix r) && (w mod 256 =? 192 + 8 * r_digit r + r_rmfix r)) rows.
+
+(* x87, the classes that DERIVE their opcodes (x86assembler.cpp, kEncodingFpuArith .. kEncodingFpuStsw): the forms the handler can emit,
+   computed from the main / alternative word and the FpuM16/32/64/80 flags exactly as the handler does, as
+   (escape opcode byte, register form?, /digit, fixed rm or -1 for an st(i) operand, memory operand size):
+   - FpuArith (67): D8 with the second byte of bits 10..17 (st0, sti), DC with the second byte of bits 0..7 (sti, st0), D8 /modo m32, DC /modo m64
+   - FpuCom (68): D8 second byte + i, also with the implied st1; memory forms as FpuArith
+   - FpuFldFst (69): opcode /modo m32, opcode+4 /modo m64, the alternative word m80 (register forms are hard-coded per instruction id
+     in the handler, not in the table: not covered)
+   - FpuM (70): opcode+4 /modo m16, opcode /modo m32, the alternative word m64
+   - FpuR (71): both bytes in the word, + i;  FpuRDef (72): the same, also with the implied st1
+   - FpuStsw (73): the alternative word (both bytes, fixed) for ax, opcode /modo m16 *)
+Definition fpu_form := (Z * bool * Z * Z * Z)%type.
+Definition w_hi (w : Z) : Z := (w / 1024) mod 256.
+Definition sec_digit (b : Z) : Z := if (192 <=? b) && (b mod 8 =? 0) then (b - 192) / 8 else -100.
+Definition fl_bit (fl d : Z) : bool := (fl / d) mod 2 =? 1.
+Definition fpu_forms (e : inst_entry) : list fpu_form :=
+  let w := ie_main e in let a := ie_alt e in let fl := ie_flags e in
+  let opt (c : bool) (f : fpu_form) := if c then [f] else [] in
+  let arithmem := [(216, false, w_modo w, -1, 4); (220, false, w_modo w, -1, 8)] in
+  let c := ie_enc e in
+  if c =? 67 then [(216, true, sec_digit (w_hi w), -1, 0); (220, true, sec_digit (w_opc w), -1, 0)] ++ arithmem
+  else if c =? 68 then [(216, true, sec_digit (w_hi w), -1, 0); (216, true, sec_digit (w_hi w), 1, 0)] ++ arithmem
+  else if c =? 69 then opt (fl_bit fl 4096) (w_opc w, false, w_modo w, -1, 4) ++ opt (fl_bit fl 8192) (w_opc w + 4, false, w_modo w, -1, 8) ++
+                       opt (fl_bit fl 2048) (w_opc a, false, w_modo a, -1, 10)
+  else if c =? 70 then opt (fl_bit fl 2048) (w_opc w + 4, false, w_modo w, -1, 2) ++ opt (fl_bit fl 4096) (w_opc w, false, w_modo w, -1, 4) ++
+                       opt (fl_bit fl 8192) (w_opc a, false, w_modo a, -1, 8)
+  else if c =? 71 then [(w_hi w, true, sec_digit (w_opc w), -1, 0)]
+  else if c =? 72 then [(w_hi w, true, sec_digit (w_opc w), -1, 0); (w_hi w, true, sec_digit (w_opc w), 1, 0)]
+  else if c =? 73 then [(w_hi a, true, sec_digit (w_opc a - w_opc a mod 8), w_opc a mod 8, 0); (w_opc w, false, w_modo w, -1, 2)]
+  else [].
+Definition fpu_row_is (r : row) (f : fpu_form) : bool :=
+  match f with
+  | (opc, isreg, dg, rmf, msz) =>
+      (r_kind r =? 0) && (r_map r =? 0) && (r_pp r <=? 1) && (r_opc r =? opc) && Bool.eqb (r_mod r =? 1) isreg && (r_digit r =? dg) &&
+      (r_rmfix r =? rmf) && (r_msz r =? msz)
+  end.
+(* forward: every form the handler can emit is a database row of the mnemonic; converse: every database row of the mnemonic is one
+   of these forms (FpuFldFst: every MEMORY row) *)
+Definition fpu_derived_agrees (rows : list row) (e : inst_entry) : bool :=
+  forallb (fun f => existsb (fun r => (r_name r =? ie_name e) && fpu_row_is r f) rows) (fpu_forms e) &&
+  forallb (fun r => negb (r_name r =? ie_name e) || ((ie_enc e =? 69) && (r_mod r =? 1)) || existsb (fpu_row_is r) (fpu_forms e)) rows.
+Definition fpu_derived_classes : list Z := [67; 68; 69; 70; 71; 72; 73].
 
 Definition zmem (x : Z) (l : list Z) : bool := existsb (Z.eqb x) l.
 
